@@ -65,7 +65,7 @@ PROPS["C01"] = {
             "cleanup ticks; non-trivial = at least one VAA was stored or broadcast in the case",
     "assumptions": ["independent verifier refvaa (go-ethereum Ecrecover/Keccak trusted)", "handlers are called directly in the order Processor.Run would call them; the harness owns loopback timing"],
     "units": [U("TestVerif_C01_Safety", PROC, R(2500), R(80000, shards=16, timeout=1500)),
-              U("TestVerif_C01_RunLoop", PROC, R(400, shards=2, shrinktime="20s"), R(12000, shards=16, timeout=1500, shrinktime="30s"))],
+              U("TestVerif_C01_RunLoop", PROC, R(400, shards=2, shrinktime="20s"), R(6000, shards=16, timeout=1500, shrinktime="30s"))],
 }
 PROPS["C02"] = {
     "rule": "one multiset of events (local observation, own signature, valid observations from members, duplicates, invalid traffic, "
@@ -74,7 +74,7 @@ PROPS["C02"] = {
     "assumptions": ["reference model in harness/node/pkg/processor/run_test.go", "publication is expected at the first *accepted observation* step at which observed && quorum holds"],
     "units": [U("TestVerif_C02_Model", PROC, R(1500), R(30000, shards=16, timeout=1500)),
               U("TestVerif_C02_Histories", PROC, R(1500), R(30000, shards=16, timeout=1500)),
-              U("TestVerif_C01_RunLoop", PROC, R(400, shards=2, shrinktime="20s"), R(12000, shards=16, timeout=1500, shrinktime="30s"))],
+              U("TestVerif_C01_RunLoop", PROC, R(400, shards=2, shrinktime="20s"), R(6000, shards=16, timeout=1500, shrinktime="30s"))],
 }
 PROPS["C03"] = {
     "rule": "reachable processor states (C01 generator without cleanup) in which every delivered observation is classified by an "
